@@ -20,6 +20,29 @@ REPLAY = os.path.join(OUT, "replay")
 KNOWN = os.path.join(ROOT, "KNOWN_FINDINGS.txt")
 NCPU = os.cpu_count() or 4
 
+# Development aid: VERIF_REPO=<another checkout> runs the checks against that tree (used to try
+# seeded changes without touching /repo). Everything it writes goes under out/alt-<name>/ and the
+# harness is built from a copy whose go.mod points at that tree. Registered commands never set it.
+if REPO != "/repo":
+    _alt = os.path.join(OUT, "alt-" + os.path.basename(REPO.rstrip("/")))
+    OUT = _alt
+    EVIDENCE = os.path.join(_alt, "evidence")
+    REPLAY = os.path.join(_alt, "replay")
+    _HSRC = HARNESS
+    HARNESS = os.path.join(_alt, "harness")
+    HBIN = os.path.join(HARNESS, "bin")
+    NCPU = int(os.environ.get("VERIF_NCPU", NCPU))
+
+
+def _prepare_alt_harness():
+    if REPO == "/repo":
+        return
+    os.makedirs(HARNESS, exist_ok=True)
+    subprocess.run(["rsync", "-a", "--delete", "--exclude", "bin", _HSRC + "/", HARNESS + "/"], check=True)
+    gm = os.path.join(HARNESS, "go.mod")
+    txt = open(gm).read().replace("=> /repo", "=> " + REPO)
+    open(gm, "w").write(txt)
+
 
 class Machinery(Exception):
     """Something in the verification machinery failed (never a verdict)."""
@@ -54,6 +77,8 @@ _built = set()
 
 def build_harness(cmds, race=False):
     """Builds harness/cmd/<name> against /repo's working tree with the verif tag."""
+    if not _built:
+        _prepare_alt_harness()
     os.makedirs(HBIN, exist_ok=True)
     shutil.copyfile(os.path.join(REPO, "go.sum"), os.path.join(HARNESS, "go.sum"))
     for c in cmds:
